@@ -96,6 +96,46 @@ func (r *roles) ruleLoopExits(s *report.Sink) {
 	})
 	s.Check(!brk && r.mainFor.Cond == nil, "S17", "loop|main for has no other way out", r.pos(r.mainFor), "`for {` without break", "main loop can be left by break/condition without meeting an exit rule")
 
+	// S30: the loop blocks only in its select (and in the deferred drain)
+	nOps := 0
+	ast.Inspect(r.Loop.Body, func(n ast.Node) bool {
+		if _, ok := n.(*ast.FuncLit); ok {
+			return false
+		}
+		var what string
+		switch v := n.(type) {
+		case *ast.UnaryExpr:
+			if v.Op == token.ARROW {
+				what = "receive " + astx.Short(v)
+			}
+		case *ast.SendStmt:
+			what = "send on " + astx.Short(v.Chan)
+		case *ast.RangeStmt:
+			if _, ok := info.TypeOf(v.X).Underlying().(*types.Chan); ok {
+				what = "range over channel " + astx.Short(v.X)
+			}
+		case *ast.SelectStmt:
+			if v != r.sel {
+				what = "another select"
+			}
+		case *ast.CallExpr:
+			if fn := astx.Callee(info, v); fn != nil && (fn.FullName() == "time.Sleep" || fn.FullName() == "(*sync.WaitGroup).Wait" || fn.FullName() == "(*sync.Mutex).Lock") {
+				what = "blocking call " + fn.FullName()
+			}
+		}
+		if what == "" {
+			return true
+		}
+		nOps++
+		cc, _ := r.par.Enclosing(n, func(x ast.Node) bool { _, ok := x.(*ast.CommClause); return ok }).(*ast.CommClause)
+		isComm := cc != nil && r.par[r.par[cc]] == ast.Node(r.sel) && cc.Comm != nil && r.par.Within(n, cc.Comm)
+		s.Check(isComm, "S30", "loop|"+what+"#"+r.armName(n), r.pos(n), "a communication of the loop's single select", "the scheduler loop blocks outside its select ("+what+"): while it does, Enqueue and Wait are not served and a fail-fast or cancelled run does not return promptly")
+		return true
+	})
+	if nOps == 0 {
+		s.Unk("S30", "loop|channel operations", r.pos(r.Loop), "no channel operation found in the loop")
+	}
+
 	// S18
 	var notOK *ast.IfStmt
 	for _, st := range r.armEnq.Body {
